@@ -42,14 +42,15 @@ theorem find?_of_nodup {α : Type} (key : α → String) : ∀ (l : List α), (l
       · exact absurd rfl h
       · exact find?_of_nodup key l hnd.2 x hx'
 
-theorem findFn_progOf {file : AFile} (hnd : (file.map (·.name)).Nodup) {g : AFn} (hg : g ∈ file) :
-    (progOf file).findFn g.name = some g.toFn := by
+theorem findFn_progOf {file : AFile} {P : Prog} (hP : P.fns = file.map AFn.toFn) (hnd : (file.map (·.name)).Nodup)
+    {g : AFn} (hg : g ∈ file) : P.findFn g.name = some g.toFn := by
   have h := find?_of_nodup (fun f : Fn => f.name) (file.map AFn.toFn) (by simpa [List.map_map, Function.comp_def, AFn.toFn] using hnd)
     g.toFn (List.mem_map_of_mem hg)
-  simpa [progOf, Prog.findFn, AFn.toFn] using h
+  simpa [Prog.findFn, hP, AFn.toFn] using h
 
-theorem findFn_none {file : AFile} {b : String} (h : ∀ f, f ∈ file → f.name ≠ b) : (progOf file).findFn b = none := by
-  simp only [progOf, Prog.findFn, List.find?_eq_none, List.mem_map]
+theorem findFn_none {file : AFile} {P : Prog} (hP : P.fns = file.map AFn.toFn) {b : String}
+    (h : ∀ f, f ∈ file → f.name ≠ b) : P.findFn b = none := by
+  simp only [Prog.findFn, hP, List.find?_eq_none, List.mem_map]
   rintro f ⟨g, hg, rfl⟩
   simpa [AFn.toFn] using h g hg
 
@@ -108,14 +109,14 @@ theorem checkFns_spec {env : Env} {file : AFile} {G : List String} : ∀ (l : Li
 theorem compileFn_name (env : Env) (st : St) (g : AFn) : (compileFn env st g).1.name = fnName g.name := rfl
 
 /-- the decidable check establishes everything the induction needs about the two programs -/
-theorem link_of_closed {env : Env} {file : AFile} {n : Nat} {G : List String} (h : closedOK env file n G = true) :
-    Link env file G (progOf file) (goFilePreSt env file n).1 := by
+theorem link_of_closed {env : Env} {file : AFile} {n : Nat} {G : List String} (h : closedOK env file n G = true)
+    {P : Prog} (hP : P.fns = file.map AFn.toFn) : Link env file G P (goFilePreSt env file n).1 := by
   simp only [closedOK, fileOK, Bool.and_eq_true] at h
   obtain ⟨⟨⟨⟨hndF, hndS⟩, hnb⟩, hres⟩, hchk⟩ := h
   have hndF := of_decide_eq_true hndF
   have hndS := of_decide_eq_true hndS
   have hfuncs := funcs_goFilePre env file n
-  refine ⟨⟨fun b g hb => ?_, fun r hr => ?_⟩, fun g hg _ => findFn_progOf hndS hg, fun g hg hG => ?_, fun b hb => ?_⟩
+  refine ⟨⟨fun b g hb => ?_, fun r hr => ?_⟩, fun g hg _ => findFn_progOf hP hndS hg, fun g hg hG => ?_, fun b hb => ?_⟩
   · simp only [GFile.findFunc] at hb ⊢
     rw [hfuncs, List.find?_append, hb]; rfl
   · have := List.all_eq_true.mp hres r hr
@@ -129,7 +130,7 @@ theorem link_of_closed {env : Env} {file : AFile} {n : Nat} {G : List String} (h
       exact List.mem_append_right _ (List.mem_append_right _ (List.mem_append_left _ hm))
     have := find?_of_nodup (fun f : GFunc => f.name) _ hndF _ hmem
     simpa [GFile.findFunc, compileFn_name] using this
-  · apply findFn_none
+  · apply findFn_none hP
     intro f hf e
     have := List.all_eq_true.mp hnb f hf
     rw [e] at this
